@@ -41,14 +41,37 @@ func (c *Codec) decodeRoot(jsonData []byte, root j5reflect.Root) error {
 	}
 }
 
+// maxNestingDepth is the deepest nesting of objects and arrays the decoder
+// follows, the same limit encoding/json applies when decoding into a value. The
+// token API used here has no limit of its own, and the decoder recurses once
+// per level, so without it a deeply nested document overflows the stack, which
+// cannot be recovered from.
+const maxNestingDepth = 10000
+
 // decoder is an instance for decoding a single message, not reusable.
 type decoder struct {
 	jd    *json.Decoder
 	codec *Codec
+	depth int
 }
 
 func (d *decoder) Token() (json.Token, error) {
-	return d.jd.Token()
+	tok, err := d.jd.Token()
+	if err != nil {
+		return tok, err
+	}
+	if delim, ok := tok.(json.Delim); ok {
+		switch delim {
+		case '{', '[':
+			d.depth++
+			if d.depth > maxNestingDepth {
+				return nil, errors.New("exceeded max nesting depth")
+			}
+		case '}', ']':
+			d.depth--
+		}
+	}
+	return tok, nil
 }
 
 func (dec *decoder) expectDelimOrNull(delim rune) (isNull bool, err error) {
